@@ -138,10 +138,14 @@ impl EventSource for EventSender<'_> {
     }
 
     fn yield_back(&self, _cancel: &'static Cancel) {
-        // ignore the cancel to let the bottom half get processed
-        // but consume the result that `yield_with` stores for a canceled coroutine,
-        // or it stays in the (pooled) coroutine and fails an io call of its next user
-        get_co_para();
+        // ignore the cancel to let the bottom half of an event that was sent get processed.
+        // But a coroutine that `yield_with` finds canceled already does not send the event at
+        // all (it gets a result instead, which must not stay in the pooled coroutine and fail
+        // an io call of its next user): the poller knows nothing of that event, the bottom
+        // half must not run - go with the cancel, like the check at the start of `send`
+        if get_co_para().is_some() && !std::thread::panicking() {
+            crate::cancel::trigger_cancel_panic();
+        }
     }
 }
 
